@@ -93,7 +93,7 @@ package http2
 //@ macro padok(p) = len(p) >= 1 && p[0] < len(p)
 
 //@ func (*Data).Deserialize
-//@ props C05 C01 C16 C17
+//@ props C05 C01 C16 C17 C02
 //@ requires recv: data != nil && fr != nil
 //@ requires lenok: fr.length == len(fr.payload)
 //@ modifies data.endStream, data.b, capacity(data.b)
@@ -117,7 +117,7 @@ package http2
 //@ |   forall(i, 1 + len(old(data.b)), len(fr.payload), fr.payload[i] == 0)
 
 //@ func (*Continuation).Deserialize
-//@ props C05 C01 C16 C17
+//@ props C05 C01 C16 C17 C02
 //@ requires recv: c != nil && fr != nil
 //@ modifies c.endHeaders, c.rawHeaders, capacity(c.rawHeaders)
 //@ ensures ok: r0 == nil && c.rawHeaders == old(fr.payload) && c.endHeaders == hasflag(fr.flags, 4)
@@ -131,7 +131,7 @@ package http2
 //@ ensures noeh: !c.endHeaders ==> fr.flags == old(fr.flags)
 
 //@ func (*Priority).Deserialize
-//@ props C05 C08 C16 C17
+//@ props C05 C08 C16 C17 C02
 //@ requires recv: pry != nil && fr != nil
 //@ modifies pry.stream, pry.weight
 //@ ensures size: err == nil <==> len(fr.payload) == 5
@@ -145,7 +145,7 @@ package http2
 //@ ensures layout: len(fr.payload) == 5 && be32(fr.payload, 0) == pry.stream && fr.payload[4] == pry.weight
 
 //@ func (*RstStream).Deserialize
-//@ props C05 C08 C16 C17
+//@ props C05 C08 C16 C17 C02
 //@ requires recv: rst != nil && fr != nil
 //@ modifies rst.code
 //@ ensures size: r0 == nil <==> len(fr.payload) == 4
@@ -159,7 +159,7 @@ package http2
 //@ ensures layout: len(fr.payload) == 4 && be32(fr.payload, 0) == rst.code
 
 //@ func (*WindowUpdate).Deserialize
-//@ props C05 C08 C16 C17
+//@ props C05 C08 C16 C17 C02
 //@ requires recv: wu != nil && fr != nil
 //@ modifies wu.increment
 //@ ensures size: r0 == nil <==> len(fr.payload) == 4
@@ -174,7 +174,7 @@ package http2
 //@ ensures value: 0 <= wu.increment && wu.increment <= 2147483647 ==> be32(fr.payload, 0) == wu.increment
 
 //@ func (*Ping).Deserialize
-//@ props C05 C16 C17
+//@ props C05 C16 C17 C02
 //@ requires recv: p != nil && frh != nil
 //@ modifies p.ack, p.data
 //@ ensures size: r0 == nil <==> len(frh.payload) == 8
@@ -190,7 +190,7 @@ package http2
 //@ ensures noack: !p.ack ==> fr.flags == old(fr.flags)
 
 //@ func (*GoAway).Deserialize
-//@ props C05 C16 C17
+//@ props C05 C16 C17 C02
 //@ requires recv: ga != nil && fr != nil
 //@ modifies ga.stream, ga.code, ga.data, capacity(ga.data)
 //@ ensures size: err == nil <==> len(fr.payload) >= 8
@@ -210,7 +210,7 @@ package http2
 //@ macro concat(r, a, b) = len(r) == len(a) + len(b) && r[:len(a)] == a && r[len(a):] == b
 
 //@ func (*Headers).Deserialize
-//@ props C05 C01 C16 C17
+//@ props C05 C01 C16 C17 C02
 //@ requires recv: h != nil && frh != nil
 //@ modifies h.priority, h.stream, h.weight, h.endStream, h.endHeaders, h.rawHeaders, capacity(h.rawHeaders)
 //@ let p = old(frh.payload)
@@ -246,7 +246,7 @@ package http2
 //@ ensures fpd: hasflag(frh.flags, 8) == (h.hasPadding || hasflag(old(frh.flags), 8))
 
 //@ func (*PushPromise).Deserialize
-//@ props C05 C16 C17
+//@ props C05 C16 C17 C02
 //@ requires recv: pp != nil && fr != nil
 //@ requires lenok: fr.length == len(fr.payload)
 //@ modifies pp.stream, pp.header, capacity(pp.header), pp.ended
@@ -329,7 +329,7 @@ package http2
 //@ ensures hdr: ite(st.headerSize != 0, sone(r, cnt, 6, st.headerSize), snone(r, cnt, 6))
 
 //@ func (*Settings).Deserialize
-//@ props C18 C05 C16 C17
+//@ props C18 C05 C16 C17 C02
 //@ requires recv: st != nil && fr != nil
 //@ modifies st.ack, st.tableSize, st.enablePush, st.maxStreams, st.windowSize, st.frameSize, st.headerSize, st.hasWindowSize
 //@ let p = fr.payload
@@ -796,7 +796,7 @@ package http2
 //@ requires body: fr != nil && fr.fr != nil
 
 //@ func (*FrameHeader).readFrom
-//@ props C05 C16 C17
+//@ props C05 C16 C17 C02
 //@ # the header is fresh from AcquireFrameHeader / Reset: no body yet, empty payload
 //@ requires recv: f != nil && br != nil && f.fr == nil && len(f.payload) == 0
 //@ opt noframe=true
@@ -810,7 +810,7 @@ package http2
 //@ ensures relnil: called(ReleaseFrame) > 0 ==> f.fr == nil
 
 //@ func ReadFrameFromWithSize
-//@ props C05 C16 C18 C17
+//@ props C05 C16 C18 C17 C02
 //@ requires rd: br != nil
 //@ opt noframe=true
 //@ ensures ok: r1 == nil ==> r0 != nil && r0.fr != nil && 0 <= r0.kind && r0.kind <= 9 && frameTypeOK(r0.fr, r0.kind) && r0.length == len(r0.payload)
@@ -819,7 +819,7 @@ package http2
 //@ ensures err: r1 != nil ==> r0 == nil
 
 //@ func ReadFrameFrom
-//@ props C05 C16 C17
+//@ props C05 C16 C17 C02
 //@ requires rd: br != nil
 //@ opt noframe=true
 //@ ensures ok: r1 == nil ==> r0 != nil && r0.fr != nil && 0 <= r0.kind && r0.kind <= 9 && frameTypeOK(r0.fr, r0.kind) && r0.length == len(r0.payload)
@@ -1215,7 +1215,7 @@ package http2
 
 //@ guarded Conn.sendLck: Conn.connWindow, Conn.streamWindow, pendingBody.window
 //@ # a body waiting for window belongs to a request (set where the entry is created in writeRequest)
-//@ type pendingBody invariant owner: self.ctx != nil
+//@ type pendingBody invariant owner: self.ctx != nil && self.ctx.Request != nil
 
 //@ func (*pendingBody).hasMore
 //@ props C07
@@ -1328,8 +1328,33 @@ package http2
 //@ ghost got = 0
 //@ ghost@ret:io.Reader.Read#1 got = ret0
 //@ ensures kept: got > 0 ==> len(pb.body) == got && pb.read == old(pb.read) + got
+//@ # the chunk lives in this body's own buffer (the one it had, or a new one): what flow control holds back of it stays
+//@ # untouched while other bodies on the connection are read (C02)
+//@ ensures ownbuf: cap(old(pb.buf)) >= 16384 ==> sameslice(pb.buf, old(pb.buf))
+//@ ensures newbuf: cap(old(pb.buf)) < 16384 ==> fresh(pb.buf)
+//@ ensures inbuf: got > 0 ==> samearray(pb.body, pb.buf)
 //@ ensures progress: r0 == nil ==> len(pb.body) > 0 || pb.drained
 //@ ensures stream: pb.stream == old(pb.stream) && pb.ctx == old(pb.ctx)
+
+//@ func (*Conn).closeBodyStream
+//@ props C07 C02
+//@ requires args: c != nil && pb != nil && (pb.stream != nil ==> pb.ctx != nil && pb.ctx.Request != nil)
+//@ opt noframe=true
+//@ modifies pb.stream
+//@ ensures closed: pb.stream == nil
+
+//@ func (*Conn).deletePending
+//@ props C07 C02
+//@ requires recv: c != nil
+//@ opt noframe=true
+//@ modifies family(pendingBody)
+
+//@ func (*Conn).cancelStream
+//@ props C07 C02
+//@ requires recv: c != nil
+//@ opt noframe=true
+//@ # what is queued is an RST_STREAM frame for that stream with that code
+//@ assert@call:(*Conn).writeOut#1 frame: arg1 != nil && arg1.stream == id && typeis(arg1.fr, *RstStream) && as(arg1.fr, *RstStream).code == code
 
 //@ func (*Conn).sendPending
 //@ props C07 C02
@@ -1344,6 +1369,11 @@ package http2
 //@ assert@call:(*Conn).flushData#1 last: end <==> !(len(pb.body) > 0 || (pb.stream != nil && !pb.drained))
 //@ # nothing is written for a blocked body
 //@ assert@call:(*Conn).flushData#1 nonempty: n > 0 || end
+//@ # a quiet return (no error, nothing cancelled, dropped or finished) means the body is blocked with octets in hand. In
+//@ # particular the call does not give up while the only thing left is to ask the reader whether the body has ended:
+//@ # the empty DATA frame that carries END_STREAM costs no window (C07: the client finishes)
+//@ ensures blockedwithdata: r0 == nil && local(pb) != nil && called((*Conn).cancelStream) == 0 && called((*Conn).deletePending) == 0 &&
+//@ |   called((*Conn).closeBodyStream) == 0 ==> len(local(pb).body) > 0
 
 // ---- the read loop: frame sequencing around header blocks (RFC 7540 6.2, 6.10) and hand-off to the stream loop ----
 
@@ -1662,7 +1692,7 @@ package http2
 //@ requires ptrs: enc != nil && hpackOK(enc) && hf != nil && h != nil
 
 //@ func (*Conn).writeRequest
-//@ props C02 C18 C11
+//@ props C02 C18 C11 C07
 //@ requires recv: c != nil && ctx != nil && ctx.Request != nil && c.bw != nil && c.enc != nil && hpackOK(c.enc)
 //@ opt noframe=true
 //@ opt noovf=true
@@ -1675,6 +1705,9 @@ package http2
 //@ |   (as(arg0.fr, *Headers).endStream <==> !hasBody) && arg0.stream == old(c.nextID)
 //@ # (the loop over the request's header fields is a range over an iterator function: the clauses of its body, the
 //@ # synthetic closure writeRequest$2, are the loop's invariant)
+//@ # a new body starts with the initial window the server's SETTINGS have established (c.streamWindow), under which
+//@ # later changes are applied as deltas - not with whatever the last SETTINGS frame happened to carry (C07)
+//@ assert@call:(*Mutex).Lock#1 seed: pb != nil && pb.window == c.streamWindow && pb.ctx == ctx
 //@ # the stream counts as open only once its HEADERS frame has been written
 //@ ensures counted: c.openStreams == old(c.openStreams) || c.openStreams == old(c.openStreams) + 1
 //@ ensures enc: c.enc == old(c.enc) && hpackOK(c.enc) && c.bw == old(c.bw)
@@ -1837,3 +1870,36 @@ package http2
 //@ requires recv: c != nil
 //@ modifies *c
 //@ ensures clean: !c.endHeaders && len(c.rawHeaders) == 0
+
+// ---- client: the handshake ----
+
+//@ # writes the preface, a SETTINGS frame and a connection WINDOW_UPDATE to the buffered writer (assumed: its frames go
+//@ # through Serialize and WriteTo, which are under contract; the function itself is not verified)
+//@ func Handshake
+//@ props C18
+//@ opt body=skip
+//@ opt noframe=true
+//@ modifies anybytes()
+
+//@ func (*Conn).doHandshake
+//@ props C18 C07
+//@ requires recv: c != nil && c.br != nil && c.bw != nil && c.c != nil && c.enc != nil && hpackOK(c.enc)
+//@ opt noframe=true
+//@ opt noovf=true
+//@ # what the server's opening SETTINGS frame says
+//@ ghost isset = false
+//@ ghost gotack = false
+//@ ghost gottbl = 0
+//@ ghost gotfrm = 0
+//@ ghost gotstrm = 0
+//@ ghost gotwin = 0
+//@ ghost@ret:ReadFrameFrom#1 isset = ret1 == nil && ret0.kind == FrameSettings
+//@ ghost@ret:ReadFrameFrom#1 gotack = as(ret0.fr, *Settings).ack
+//@ ghost@ret:ReadFrameFrom#1 gottbl = as(ret0.fr, *Settings).tableSize
+//@ ghost@ret:ReadFrameFrom#1 gotfrm = as(ret0.fr, *Settings).frameSize
+//@ ghost@ret:ReadFrameFrom#1 gotstrm = as(ret0.fr, *Settings).maxStreams
+//@ ghost@ret:ReadFrameFrom#1 gotwin = as(ret0.fr, *Settings).windowSize
+//@ # ... is in force when the handshake returns: frame size, stream limit, initial window, and a HEADER_TABLE_SIZE up to the
+//@ # default is applied to the encoder there and then - also 0 - and recorded as seen, so that writeRequest does not skip it
+//@ ensures limits: r0 == nil && isset && !gotack ==> c.maxFrameSize == gotfrm && c.maxStreams == gotstrm && (c.streamWindow == gotwin || c.streamWindow == gotwin - 4294967296)
+//@ ensures table: r0 == nil && isset && !gotack && gottbl <= 4096 ==> c.enc.maxTableSize == gottbl && c.encTableSize == gottbl && c.encTableSizeSeen == gottbl
